@@ -318,6 +318,7 @@ func (m *clientHelloMsg) MakeLog() *ClientHello {
 	ch.TicketSupported = m.ticketSupported
 	ch.SecureRenegotiation = m.secureRenegotiationSupported && len(m.secureRenegotiation) > 0
 
+	ch.ExtendedMasterSecret = m.extendedMasterSecret
 	ch.ServerName = m.serverName
 	ch.Scts = m.scts
 
